@@ -242,7 +242,7 @@ def run_served(base, case, cfg, lookups, thorough):
     from django.test import RequestFactory, override_settings
     if not _RF:
         _RF.append(RequestFactory())
-    out = {"reqs": [], "sf": [], "collect": None, "collect_ign": None, "real": None}
+    out = {"reqs": [], "sf": [], "collect": None, "collect_ign": None, "real": None, "get_finders": None}
     sf.get_finder.cache_clear()
     try:
         for p in lookups:
@@ -269,6 +269,10 @@ def run_served(base, case, cfg, lookups, thorough):
                 except Exception as e:  # noqa
                     res.append(("susp",) if type(e).__name__ == "SuspiciousFileOperation" else ("err", type(e).__name__))
             out["sf"].append(tuple(res))
+        try:        # what collectstatic iterates
+            out["get_finders"] = [(storage.location, path) for finder in sf.get_finders() for path, storage in finder.list([])]
+        except Exception as e:  # noqa
+            out["get_finders"] = [("\0get_finders()...list() raised " + type(e).__name__, "")]
         sroot = os.path.join(base + "_static")
         with override_settings(STATIC_ROOT=sroot):
             for key, use_default in (("collect", False), ("collect_ign", True)):
@@ -543,6 +547,8 @@ def oracle(fails, base, case, cfg, lookups, obs, locinfo):
                     STATS["listed_files_shadowed_by_directory_in_dev_server"] += 1
                 elif firsts and not p.endswith("\n") and rq_ != ("file", firsts[0] + "/" + p):
                     fail(trig(p, False), "dev server: GET %r -> %r but list() has the file (first location %r)" % (p, rq_, firsts[0]), lookup=p)
+        if sorted(sv["get_finders"]) != sorted(listed):
+            fail("c17-collect-differs", "get_finders()...list([]) -> %r but finder.list([]) -> %r" % (sv["get_finders"], listed))
         want = [r + "/" + p for r, p in first_wins(listed)]
         for key, w in (("collect", want), ("collect_ign", [r + "/" + p for r, p in first_wins(want_ign)])):
             if sv[key] is not None and sorted(sv[key]) != sorted(w):
@@ -552,8 +558,13 @@ def oracle(fails, base, case, cfg, lookups, obs, locinfo):
                 if not q.startswith("\0") and not any(under(os.path.realpath(q), r) for r in exp):
                     fail("c17-escape-root", "collectstatic copies %r, which is not inside any component directory" % q, collected=q)
         if sv["real"] is not None:
-            wantreal = {p: r + "/" + p for r, p in first_wins(listed)}
-            if sv["real"] != wantreal:
+            # Django's destination storage rewrites '\\' in a destination NAME to '/' (FileSystemStorage / clean_name): such names are
+            # compared by content only - that is the destination side of collectstatic, not the finder
+            fw = first_wins(listed)
+            bs = {p.replace("\\", "/") for _, p in fw if "\\" in p}
+            wantreal = {p: r + "/" + p for r, p in fw if p.replace("\\", "/") not in bs}
+            gotreal = {k: v for k, v in sv["real"].items() if k not in bs}
+            if gotreal != wantreal or not {v for k, v in sv["real"].items() if k in bs} <= {r + "/" + p for r, p in fw}:
                 fail("c17-collect-differs", "collectstatic copied {destination: content} %r but finder.list() (first destination wins) gives %r"
                      % (sv["real"], wantreal), collected=sorted(sv["real"]))
 
@@ -691,7 +702,7 @@ def phase(chk, name, t0, c0):
     d[name] = [round(w + time.time() - t0, 1), round(c + cpu_s() - c0, 1)]
 
 
-def run_cases(chk, roots, cases, thorough, jobs=None):
+def run_cases(chk, roots, cases, thorough, jobs=None, offset=0):
     """Run all layout cases on the implementation (process pool), then the model inside Coq; record everything in chk."""
     jobs = jobs or C.NCPU
     t0, c0 = time.time(), cpu_s()
@@ -700,15 +711,15 @@ def run_cases(chk, roots, cases, thorough, jobs=None):
     if pooled:
         ctx = multiprocessing.get_context("fork")
         with ctx.Pool(jobs, initializer=_worker_init, initargs=(roots.base, thorough)) as pool:
-            for idx, res in pool.imap_unordered(_worker, list(enumerate(cases)), chunksize=4):
-                results[idx] = res
+            for idx, res in pool.imap_unordered(_worker, [(offset + i, c) for i, c in enumerate(cases)], chunksize=4):
+                results[idx - offset] = res
             pool.close()
             pool.join()
     else:
         _worker_init(roots.base, thorough)
-        for job in enumerate(cases):
-            idx, res = _worker(job)
-            results[idx] = res
+        for i, c in enumerate(cases):
+            idx, res = _worker((offset + i, c))
+            results[i] = res
     phase(chk, "F/X implementation (process pool)", t0, c0)
     t0, c0 = time.time(), cpu_s()
     fterms, sterms, smap = [], [], []
@@ -726,10 +737,10 @@ def run_cases(chk, roots, cases, thorough, jobs=None):
             smap.append(i)
     bad = C.coq_eval_cases("C17", "finder", IMPORTS, "finder_case", "check_finder", fterms, shard=max(8, min(40, len(fterms) // (2 * jobs) + 1)))
     for i in bad[:10]:
-        chk.disagree("Finder model != ComponentsFileSystemFinder.find / find(all=True) / list", dict(cases[i], base=os.path.join(roots.base, "%d" % i)))
+        chk.disagree("Finder model != ComponentsFileSystemFinder.find / find(all=True) / list", dict(cases[i], base=os.path.join(roots.base, "%d" % (offset + i))))
     bad = C.coq_eval_cases("C17", "served", IMPORTS, "served_case", "check_served", sterms, shard=max(8, min(40, len(sterms) // (2 * jobs) + 1)))
     for i in bad[:10]:
-        chk.disagree("Finder model != staticfiles serve view / collectstatic --dry-run", dict(cases[smap[i]], base=os.path.join(roots.base, "%d" % smap[i])))
+        chk.disagree("Finder model != staticfiles serve view / collectstatic --dry-run", dict(cases[smap[i]], base=os.path.join(roots.base, "%d" % (offset + smap[i]))))
     phase(chk, "F/X model (coqc, vm_compute)", t0, c0)
     chk.extra["coq_term_bytes"] = chk.extra.get("coq_term_bytes", 0) + sum(map(len, fterms)) + sum(map(len, sterms))
 
@@ -1051,7 +1062,10 @@ def run_sj_cases(chk, maxlen, nrandom):
         chk.disagree("safe_join/relpath model != django safe_join / os.path.relpath", {"kind": "sj", "root": cases[i][0], "paths": cases[i][1]})
 
 
-N_RANDOM = {"quick": 260, "thorough": 5000}
+N_RANDOM = {"quick": 2400, "thorough": 12000}
+if os.environ.get("C17_RANDOM"):            # development knob only (mutation experiments on a loaded machine)
+    N_RANDOM = {k: int(os.environ["C17_RANDOM"]) for k in N_RANDOM}
+CHUNK = 1500
 
 
 def build_cases(chk, thorough):
@@ -1108,12 +1122,13 @@ def run(tier, seed):
     ov.enable()
     try:
         cases, L = build_cases(chk, thorough)
-        run_cases(chk, roots, cases, thorough)
+        for si in range(0, len(cases), CHUNK):          # chunks bound the memory taken by the Coq literals
+            run_cases(chk, roots, cases[si:si + CHUNK], thorough, offset=si)
         # ---- V, J ----
         follow_up = []
         run_valid_cases(chk, roots, 3000 if thorough else 220, 40, follow_up)
         if follow_up:
-            run_cases(chk, roots, follow_up, thorough, jobs=1)
+            run_cases(chk, roots, follow_up, thorough, jobs=1, offset=len(cases))
         run_sj_cases(chk, 7 if thorough else 6, 1500 if thorough else 300)
     finally:
         ov.disable()
